@@ -244,6 +244,20 @@ def hmix_stream(tag, tier):
                        "after each flush and drop against the byte-vector model (an append always lands at the end of the file as it is then)" % (3 if tier == "quick" else 4))
 
 
+# ---- C02 / C08: listing and traversal order on names around the separator, both backends -----------------------------------------
+def order_stream(tag):
+    hs = []
+    for k in ["paths", "dirs", "files", "all_paths", "all_dirs", "all_files"]:
+        for r in ["/", "/a", "/t", "/t/data"]:
+            hs.append(_line("x", c_mem.ORDER_TREE + [op(k, r)]))
+    for wo in ["sort", "sort,cf", "sort,df", "sort,ff,min=1", "sort,dirs", "sort,files,cf", "sort,max=1", "sort,min=1,max=2"]:
+        for r in ["/", "/t"]:
+            hs.append(_line("x", c_mem.ORDER_TREE + ["entries:%s:%s" % (hx(r), wo)]))
+    return Stream(tag + "-order-both-backends", "pycheck", hs, impl_env=c_wrap.sandbox_env(tag), pycheck=c_wrap.x_eq, exhaustive=True, nontrivial=lambda l, o: True,
+                  rule="a directory next to siblings named like it plus a character that sorts below the separator (space, '-', '.', '+'): every listing helper and sorted "
+                       "traversal on Memfs and Stdfs (sandbox) side by side - names are ordered per directory, not as whole path strings")
+
+
 def _extend(mod, pid, extra, note):
     P = dict(mod.PROPS[pid])
     base = P["streams"]
@@ -259,4 +273,5 @@ _extend(c_mem, "C10", lambda tier, rng, ctx: c10_std_streams(tier, rng), "Stdfs 
 _extend(c_mem, "C20", c20_std_streams, "Stdfs side: C02 runs every macro on both backends inside its domain; here the macros are judged on Stdfs's own answers, dangling links included")
 _extend(c_mem, "C06", lambda tier, rng, ctx: [hmix_stream("c06h", tier)], "Stdfs side: content laws on both backends, and handles interleaved with other writers judged by the byte-vector model")
 _extend(c_mem, "C07", lambda tier, rng, ctx: [hmix_stream("c07h", tier)], "Stdfs handles interleaved with other writers are judged by the byte-vector model (c_std.py)")
-_extend(c_wrap, "C02", lambda tier, rng, ctx: [spelling_stream("c02s"), copy_link_stream("c02c")], "the spelling and copy-onto-links streams are shared with C05 / C09")
+_extend(c_mem, "C08", lambda tier, rng, ctx: [order_stream("c08o")], "Stdfs side: C02, plus the order stream here")
+_extend(c_wrap, "C02", lambda tier, rng, ctx: [spelling_stream("c02s"), copy_link_stream("c02c"), order_stream("c02o")], "the spelling and copy-onto-links streams are shared with C05 / C09")
